@@ -48,8 +48,13 @@ def acc_hyps(p, N_terms):
     for e in tbl.residual_calls(p):
         if (e["key"] or "").endswith("Iterator::position"):
             it = e["snap"][0] if e.get("snap") else None
+            src = None
             if it is not None and it[0] == "call" and it[3]:
-                hyps.append(lin.gt(("len", norm(it[3][0])), ("someval", norm(e["result"]))))
+                src = it[3][0]
+            elif it is not None and it[0] == "agg" and it[2] == "core::slice::iter::Iter":
+                src = it[5][1]
+            if src is not None:
+                hyps.append(lin.gt(("len", norm(src)), ("someval", norm(e["result"]))))
     return hyps
 
 
